@@ -121,8 +121,7 @@ Section C09.
       (forall b, from_bool (impl (TEnumR c wordv vs)) b = Err (unexpected_type "bool"))
       /\ (forall ch, from_char (impl (TEnumR c wordv vs)) ch = Err (unexpected_type "char"))
       /\ (forall i l, (forall s, l <> LStr s) -> is_err (from_value (impl (TEnumR c wordv vs)) i l) = true)
-      /\ (forall e, (forall j s, strip_groups e <> ELit j (LStr s)) -> (forall j s, strip_groups e <> ENeg j (LStr s)) ->
-            is_err (from_expr (impl (TEnumR c wordv vs)) e) = true).
+      /\ (forall e, (forall j s, strip_groups e <> ELit j (LStr s)) -> is_err (from_expr (impl (TEnumR c wordv vs)) e) = true).
   Proof.
     exact (enum_other_forms pf reparse reparse_arr reparse_preds sugg sim interp_with interp_fn).
   Qed.
